@@ -321,3 +321,68 @@ def run_states(prog):
     if not built:
         res.viol("anchors", "keyberon/src/layout.rs", "process_sequences / process_sequence_custom build no State entries any more")
     return res
+
+
+def run_snapshot(prog):
+    """R-IDLE-SNAPSHOT (C07, C13): keystate_changed_after_read compares the number of layout states at the end of
+    handle_keystate_changes with the number *at the moment the keys were read*. The snapshot therefore has to be taken
+    next to `layout.keycodes()`: between the two, nothing that can mutate the layout runs. If the snapshot is taken later
+    (after the override handling, which can erase the overridden key's state), that removal is not noticed, kanata
+    reports idle and blocks before the tick that would release the override's output key."""
+    from kq.analysis import backward_slice
+    from kq.core import callee_name, is_place, proj
+    from kq.gf2 import root_desc
+    res = RuleResult("R-IDLE-SNAPSHOT", "the state-count snapshot is taken together with the key read", floor=1)
+    f = prog.fn("kanata_state_machine::kanata::Kanata::handle_keystate_changes")
+    res.fn(f)
+    # the store of the flag and the snapshot it compares with
+    stores = [(bi, si, st) for bi, si, st in f.all_rvalues() if proj(st["p"]) and (root_desc(f, st["p"]) or "").endswith(".keystate_changed_after_read")]
+    reads = [bi for bi, t in f.calls() if (callee_name(t) or "").endswith("Layout::keycodes")]
+    if not stores or not reads:
+        res.viol("anchor", f.loc, "the flag store / the keycodes() read was not found in handle_keystate_changes")
+        return res
+    bi, si, st = stores[-1]
+    # len() calls feeding the comparison
+    rv = st["rv"]
+    lens = []
+    seen = set()
+    work = [o for o in (rv.get("a"), rv.get("b")) if o is not None]
+    while work:
+        o = work.pop()
+        if not is_place(o) or o["l"] in seen:
+            continue
+        seen.add(o["l"])
+        for d in f.defs().get(o["l"], []):
+            if d[2] == "call":
+                if (callee_name(d[3]) or "").split("::")[-1] == "len":
+                    lens.append((d[0], d[3]))
+            elif d[2] == "assign":
+                from kq.core import rvalue_operands
+                work.extend(rvalue_operands(d[3]))
+    early = [(b, t) for b, t in lens if b != bi and bi in f.reach_from(b) and not f.dominates(bi, b)]
+    snap = min(early, key=lambda x: x[0]) if early else None
+    if snap is None or len(lens) < 2:
+        res.inst("snapshot", where=f.loc, ok=False)
+        res.oblige(False)
+        res.viol("snapshot", f.loc, "the flag is no longer computed from two states.len() reads (snapshot and end of the function)")
+        return res
+    sb, stt = snap
+    rb = reads[0]
+    # calls between keycodes() and the snapshot that can touch the layout (take &mut of it / of self)
+    between = f.reach_from(f.term(rb)["t"], avoid=[sb]) if f.term(rb).get("t") is not None else set()
+    muts = []
+    for b2, t2 in f.calls():
+        if b2 in between and b2 != sb and b2 != rb and sb in f.reach_from(b2):
+            for a in t2["args"]:
+                if is_place(a) and (f.local_ty(a["l"]) or "").startswith("&mut") and not (callee_name(t2) or "").split("::")[-1] in ("extend", "deref_mut", "bm"):
+                    muts.append(((callee_name(t2) or "").split("::")[-1], t2.get("ln")))
+    ok = f.dominates(rb, sb) and not muts
+    res.inst("snapshot", where="%s:%s" % (f.file, stt.get("ln")), calls_between_read_and_snapshot=muts[:5], ok=ok)
+    res.oblige(ok)
+    if not ok:
+        res.viol("snapshot", "%s:%s" % (f.file, stt.get("ln")),
+                 "the states.len() snapshot that keystate_changed_after_read is compared with is not taken right after layout.keycodes(): "
+                 "%s run(s) in between and can remove key states (override-release-on-activation erases the overridden key), so a "
+                 "removal that still has to reach the OS is not noticed and kanata blocks as idle with the key down"
+                 % ([m[0] for m in muts[:4]] or "the key read no longer precedes it;"))
+    return res
